@@ -307,6 +307,64 @@ fn body_value(rng: &mut Rng) -> Value {
     }
 }
 
+/// Instants with a whole number of microseconds (what a Timestamp is written as), before and after the epoch.
+impl Gen for swimos_model::Timestamp {
+    fn gen(rng: &mut Rng) -> Self {
+        use chrono::TimeZone;
+        let secs = *rng.pick(&[0i64, 1, 1_700_000_000, -1, -86_400, 253_402_300_799]);
+        let micros = *rng.pick(&[0u32, 1, 500_000, 999_999, 123_456]);
+        chrono::Utc.timestamp_opt(secs, micros * 1000).single().expect("a valid instant").into()
+    }
+}
+
+#[derive(Form, Debug, PartialEq, Clone)]
+struct Stamped {
+    at: swimos_model::Timestamp,
+    #[form(header)]
+    seen: Option<swimos_model::Timestamp>,
+}
+impl Gen for Stamped {
+    fn gen(rng: &mut Rng) -> Self {
+        Stamped { at: Gen::gen(rng), seen: Gen::gen(rng) }
+    }
+}
+
+#[derive(Form, Debug, PartialEq, Clone)]
+struct HeaderBodyVec {
+    #[form(header_body)]
+    v: Vec<i32>,
+    a: i32,
+}
+impl Gen for HeaderBodyVec {
+    fn gen(rng: &mut Rng) -> Self {
+        HeaderBodyVec { v: Gen::gen(rng), a: Gen::gen(rng) }
+    }
+}
+
+#[derive(Form, Debug, PartialEq, Clone)]
+struct HeaderBodyMap {
+    #[form(header_body)]
+    m: HashMap<String, i32>,
+    a: i32,
+}
+impl Gen for HeaderBodyMap {
+    fn gen(rng: &mut Rng) -> Self {
+        HeaderBodyMap { m: Gen::gen(rng), a: Gen::gen(rng) }
+    }
+}
+
+#[derive(Form, Debug, PartialEq, Clone)]
+struct HeaderBodyTuple {
+    #[form(header_body)]
+    t: Tuple,
+    a: i32,
+}
+impl Gen for HeaderBodyTuple {
+    fn gen(rng: &mut Rng) -> Self {
+        HeaderBodyTuple { t: Gen::gen(rng), a: Gen::gen(rng) }
+    }
+}
+
 #[derive(Form, Debug, PartialEq, Clone)]
 struct BodyValue {
     #[form(header)]
@@ -606,6 +664,12 @@ fn both_paths<T: Form + Debug + PartialEq>(text: &str) -> (Result<T, String>, Re
     (direct, via_model)
 }
 
+/// Whether the compact text of a value denotes the value's model (C09's business where it does not).
+fn text_faithful_pre<T: Form>(x: &T) -> bool {
+    let text = print_recon_compact(x).to_string();
+    parse_recognize::<Value>(Span::new(&text), false).ok().as_ref() == Some(&x.as_value())
+}
+
 fn battery<T: Form + Gen + Debug + PartialEq + Clone>(ctx: &mut Ctx, name: &str, n: usize) {
     for _ in 0..n {
         let x = T::gen(&mut ctx.rng);
@@ -637,6 +701,27 @@ fn battery<T: Form + Gen + Debug + PartialEq + Clone>(ctx: &mut Ctx, name: &str,
             let model_text = print_recon_compact(&model).to_string();
             if text != model_text {
                 return Err(format!("print {} {:?}: printed directly {:?}, through the model {:?}", name, x, text, model_text));
+            }
+            // a second value read with the decoder that read the first (every typed channel reads value after value
+            // with one recognizer, reset in between)
+            {
+                use tokio_util::codec::{Decoder, Encoder};
+                let y = T::gen(&mut Rng::new(text.len() as u64 * 31 + 7));
+                let mut frames = BytesMut::new();
+                let mut enc = swimos_recon::WithLenReconEncoder;
+                enc.encode(&x, &mut frames).map_err(|e| format!("{:?}", e))?;
+                enc.encode(&y, &mut frames).map_err(|e| format!("{:?}", e))?;
+                let mut dec = swimos_recon::WithLenRecognizerDecoder::new(T::make_recognizer());
+                let first = dec.decode(&mut frames).map_err(|e| format!("{:?}", e));
+                let second = dec.decode(&mut frames).map_err(|e| format!("{:?}", e));
+                let first_ok = matches!(&first, Ok(Some(v)) if *v == x);
+                // (as for the one-shot paths: only where the printed text is faithful to the model)
+                let y_text = print_recon_compact(&y).to_string();
+                let y_faithful = parse_recognize::<Value>(Span::new(&y_text), false).ok().as_ref() == Some(&y.as_value());
+                let second_ok = matches!(&second, Ok(Some(v)) if *v == y);
+                if (text_faithful_pre(&x) && !first_ok) || (first_ok && y_faithful && !second_ok) {
+                    return Err(format!("decoder-reuse {}: frames of {:?} and {:?} read with one decoder give {:?} and {:?}", name, x, y, first, second));
+                }
             }
             let (direct, via_model) = both_paths::<T>(&text);
             // (whether the text reads back as the same model value is the business of C09: a record whose only
@@ -714,6 +799,11 @@ fn main() {
     battery::<WithBody>(&mut ctx, "WithBody", n);
     battery::<BodyVec>(&mut ctx, "BodyVec", n);
     battery::<BodyScalar>(&mut ctx, "BodyScalar", n);
+    battery::<swimos_model::Timestamp>(&mut ctx, "Timestamp", n);
+    battery::<Stamped>(&mut ctx, "Stamped", n);
+    battery::<HeaderBodyVec>(&mut ctx, "HeaderBodyVec", n);
+    battery::<HeaderBodyMap>(&mut ctx, "HeaderBodyMap", n);
+    battery::<HeaderBodyTuple>(&mut ctx, "HeaderBodyTuple", n);
     battery::<BodyValue>(&mut ctx, "BodyValue", 2 * n);
     battery::<AttrBodyValue>(&mut ctx, "AttrBodyValue", 2 * n);
     battery::<Skipper>(&mut ctx, "Skipper", n);
